@@ -69,7 +69,8 @@ def handleG (o : Ops K) (c : Case) : Res := Id.run do
     s!"trans={c.p "trans"}", s!"vcls={c.p "vcls"}", s!"equed={c.p "equed"}", s!"norm={c.p "norm"}", s!"colperm={c.p "colperm"}",
     (if info == 0 then "info=0" else if info ≤ n then "info=replaced" else "info>n"),
     (if nodrop then "nodrop" else "drop"), s!"dmode={c.p "dmode" "0"}", s!"u={c.p "u"}"] ++
-    (if c.p "refact" == "1" then [if c.p "refkind" == "0" then "refactor=same-values" else "refactor=new-values"] else []) ++ (if c.p "symm" == "1" then ["symmetric-mode"] else [])
+    (if c.p "refact" == "1" then [if c.p "refkind" == "0" then "refactor=same-values" else "refactor=new-values"] else []) ++ (if c.p "symm" == "1" then ["symmetric-mode"] else []) ++
+    (if c.p "userwork" "0" == "1" then ["user-workspace", s!"user-workspace-fill={c.p "fill"}"] ++ (if c.pNat "expansions" > 0 then ["user-workspace-expanded"] else []) else [])
   let call := s!"{c.ty}gsisx Stype={c.p "stype"} Trans={c.p "trans"} rule={rule} milu={c.p "milu"} rowperm={c.p "rowperm"}"
   let lib := c.str "libout"
   let tags := if lib ≠ "" then tags ++ ["library-printed"] else tags
